@@ -370,3 +370,134 @@ Section Plan.
     Qed.
   End Dag.
 End Plan.
+
+(* ---------- statements with the propositional hypotheses of Spec/PlannerASpec.v ---------- *)
+Theorem plan_wf : forall ord g, ord_ok ord -> graph_ok g -> strict g -> group_dag g ->
+  exists order, wf_plan order (plan_of ord g) = true.
+Proof. intros ord g Hord Hok Hstrict [grk Hdag]. exact (plan_wf_rank ord g Hord Hok Hstrict grk Hdag). Qed.
+
+(* ---------- req_covers ---------- *)
+Definition adj_of (g : fgraph) : list (nat * list nat) := map (fun n => (fid n, fins n)) g.
+
+Lemma parents_of_spec : forall g x u, In x (parents_of (adj_of g) u) <-> parent g x u.
+Proof.
+  intros g x u. induction g as [|a g IH]; cbn.
+  - split; [intros [] | intros [n [[] _]]].
+  - destruct (Nat.eqb (fid a) u) eqn:E.
+    + apply Nat.eqb_eq in E. rewrite in_app_iff, IH. split.
+      * intros [H|[n [Hn [En Hp]]]]; [exists a; repeat split; [left; reflexivity | exact E | exact H] | exists n; repeat split; [right; exact Hn | exact En | exact Hp]].
+      * intros [n [[Hn|Hn] [En Hp]]]; [subst n; left; exact Hp | right; exists n; repeat split; assumption].
+    + apply Nat.eqb_neq in E. rewrite IH. split.
+      * intros [n [Hn [En Hp]]]. exists n. repeat split; [right; exact Hn | exact En | exact Hp].
+      * intros [n [[Hn|Hn] [En Hp]]]; [subst n; contradiction | exists n; repeat split; assumption].
+Qed.
+
+Lemma ancestors_sound : forall g u0 fuel frontier acc,
+  (forall x, In x frontier -> x = u0 \/ anc g x u0) -> (forall x, In x acc -> anc g x u0) ->
+  forall x, In x (ancestors fuel (adj_of g) frontier acc) -> anc g x u0.
+Proof.
+  intros g u0 fuel. induction fuel as [|f IH]; intros frontier acc Hfr Hacc x Hx; cbn in Hx; [exact (Hacc x Hx)|].
+  set (next := filter (fun y => negb (mem y acc)) (flat_map (parents_of (adj_of g)) frontier)) in *.
+  assert (Hnext : forall y, In y next -> anc g y u0).
+  { intros y Hy. unfold next in Hy. apply filter_In in Hy. destruct Hy as [Hy _]. apply in_flat_map in Hy.
+    destruct Hy as [z [Hz Hyz]]. apply parents_of_spec in Hyz. destruct (Hfr z Hz) as [E|Hanc].
+    - subst z. apply anc_direct. exact Hyz.
+    - exact (anc_trans_l g y z u0 Hyz Hanc). }
+  destruct next as [|n0 nt] eqn:En; [exact (Hacc x Hx)|]. rewrite <- En in *.
+  apply (IH next (acc ++ next)); [intros y Hy; right; exact (Hnext y Hy) | | exact Hx].
+  intros y Hy. apply in_app_iff in Hy. destruct Hy as [Hy|Hy]; [exact (Hacc y Hy) | exact (Hnext y Hy)].
+Qed.
+
+Theorem plan_req_covers : forall ord g, ord_ok ord -> graph_ok g -> strict g ->
+  req_covers (plan_of ord g) (adj_of g) = true.
+Proof.
+  intros ord g Hord Hok Hstrict. destruct (plan_facts ord g Hord Hok Hstrict) as (_ & F2 & _ & _ & _ & F6).
+  unfold req_covers. apply forallb_forall. intros s Hs. rewrite (proj2 (F2 s Hs)).
+  apply forallb_forall. intros u Hu. apply subset_incl. intros x Hx. apply (F6 s x Hs). exists u. split; [exact Hu|].
+  apply (ancestors_sound g u _ [u] [] (fun y Hy => match Hy with or_introl E => or_introl (eq_sym E) | or_intror F => match F with end end)
+           (fun y Hy => match Hy with end) x Hx).
+Qed.
+
+(* ---------- the decidable versions of the hypotheses are sound ---------- *)
+Lemma before_lt : forall order a b, before order a b = true ->
+  (match pos a order with Some i => i | None => 0 end) < (match pos b order with Some i => i | None => 0 end).
+Proof.
+  intros order a b H. unfold before in H. destruct (pos a order) as [i|]; [|discriminate].
+  destruct (pos b order) as [j|]; [|discriminate]. apply Nat.ltb_lt. exact H.
+Qed.
+
+Lemma acyclicb_sound : forall g, acyclicb g = true -> acyclic g.
+Proof.
+  intros g H. unfold acyclicb in H.
+  set (order := topo_list (S (List.length g)) (ins_of g) (ids g) []) in *.
+  exists (fun u => match pos u order with Some i => i | None => 0 end).
+  intros p c [n [Hn [E Hp]]]. subst c. rewrite forallb_forall in H. specialize (H n Hn).
+  rewrite forallb_forall in H. exact (before_lt order p (fid n) (H p Hp)).
+Qed.
+
+Theorem graph_okb_sound : forall g, graph_okb g = true -> graph_ok g.
+Proof.
+  intros g H. unfold graph_okb in H. apply andb_true_iff in H. destruct H as [H Hac].
+  apply andb_true_iff in H. destruct H as [Hnd Hall]. rewrite forallb_forall in Hall.
+  split; [apply nodupb_NoDup; exact Hnd|]. split; [|split].
+  - intros p c [n [Hn [E Hp]]]. specialize (Hall n Hn). apply andb_true_iff in Hall. destruct Hall as [Hs _].
+    apply subset_incl in Hs. exact (Hs p Hp).
+  - intros n Hn. specialize (Hall n Hn). apply andb_true_iff in Hall. destruct Hall as [_ Hd]. apply nodupb_NoDup. exact Hd.
+  - apply acyclicb_sound. exact Hac.
+Qed.
+
+Theorem strictb_sound : forall g, strictb g = true -> strict g.
+Proof.
+  intros g H n m Hn Hm. unfold strictb in H. destruct g as [|a g']; [destruct Hn|].
+  rewrite forallb_forall in H. pose proof (H n Hn) as H1. pose proof (H m Hm) as H2.
+  apply Nat.eqb_eq in H1, H2. congruence.
+Qed.
+
+Theorem group_dagb_sound : forall g, NoDup (ids g) -> group_dagb g = true -> group_dag g.
+Proof.
+  intros g Hnd H. unfold group_dagb in H.
+  set (order := topo_list (S (List.length (dedupe (map fgrp g)))) (grp_deps g) (dedupe (map fgrp g)) []) in *.
+  exists (fun k => match pos k order with Some i => i | None => 0 end).
+  intros p c [n [Hn [E Hp]]] Hne. subst c. rewrite (grp_of_node g n Hnd Hn) in *.
+  rewrite forallb_forall in H. specialize (H n Hn). rewrite forallb_forall in H. specialize (H p Hp).
+  apply orb_true_iff in H. destruct H as [H|H]; [apply Nat.eqb_eq in H; contradiction|].
+  exact (before_lt order _ _ H).
+Qed.
+
+(* ---------- refutation of plan_wf without group_dag: a strict-fragment request whose plan deadlocks ---------- *)
+(* r <- (root);  group 1 = {a1 <- r, a2 <- b2};  group 2 = {b1 <- a1, b2 <- r};  requested a2, b1 *)
+Definition g_cross : fgraph :=
+  [ {| fid := 11; fgrp := 1; fins := [6];  freq := true;  fcfw := 1 |};     (* a2 requested *)
+    {| fid := 6;  fgrp := 2; fins := [0];  freq := false; fcfw := 1 |};     (* b2 *)
+    {| fid := 0;  fgrp := 0; fins := [];   freq := false; fcfw := 1 |};     (* r  *)
+    {| fid := 13; fgrp := 2; fins := [2];  freq := true;  fcfw := 1 |};     (* b1 requested *)
+    {| fid := 2;  fgrp := 1; fins := [0];  freq := false; fcfw := 1 |} ].   (* a1 *)
+
+Lemma g_cross_ok : graph_ok g_cross /\ strict g_cross.
+Proof. split; [apply graph_okb_sound | apply strictb_sound]; vm_compute; reflexivity. Qed.
+
+Theorem plan_wf_refuted :
+  graph_ok g_cross /\ strict g_cross /\ group_dagb g_cross = false /\
+  prepare_A ord_id g_cross = Planned (plan_of ord_id g_cross) /\
+  (forall order, wf_plan order (plan_of ord_id g_cross) = false) /\
+  (forall n, n <= 200 -> loop_head (plan_of ord_id g_cross)
+                           (run false true (fun _ => false) (plan_of ord_id g_cross) (repeat EScan n)) = Looping).
+Proof.
+  destruct g_cross_ok as [H1 H2]. split; [exact H1|]. split; [exact H2|]. split; [vm_compute; reflexivity|].
+  split; [vm_compute; reflexivity|]. split.
+  - intros order. destruct (wf_plan order (plan_of ord_id g_cross)) eqn:E; [|reflexivity]. exfalso.
+    destruct (wf_plan_props order _ E) as (Hinj & _ & Hdj & _ & Hearlier).
+    set (s1 := {| sid := 2; skind := KFG; uuids := [11; 2]; req := [6; 0]; requested := true |}).
+    set (s2 := {| sid := 1; skind := KFG; uuids := [6; 13]; req := [0; 2]; requested := true |}).
+    assert (Hp : plan_of ord_id g_cross = [ {| sid := 0; skind := KFG; uuids := [0]; req := []; requested := false |}; s2; s1 ])
+      by (vm_compute; reflexivity).
+    rewrite Hp in *.
+    assert (In1 : In s1 [ {| sid := 0; skind := KFG; uuids := [0]; req := []; requested := false |}; s2; s1 ]) by (right; right; left; reflexivity).
+    assert (In2 : In s2 [ {| sid := 0; skind := KFG; uuids := [0]; req := []; requested := false |}; s2; s1 ]) by (right; left; reflexivity).
+    destruct (Hearlier s1 6 In1 (or_introl eq_refl)) as (sa & i & j & Hsa & Hua & Hi & Hj & Hlt).
+    assert (Ea : sa = s2) by (apply (Hdj sa s2 6 Hsa In2 Hua); left; reflexivity). subst sa.
+    destruct (Hearlier s2 2 In2 (or_intror (or_introl eq_refl))) as (sb & i' & j' & Hsb & Hub & Hi' & Hj' & Hlt').
+    assert (Eb : sb = s1) by (apply (Hdj sb s1 2 Hsb In1 Hub); right; left; reflexivity). subst sb.
+    cbn [sid s1 s2] in *. rewrite Hi in Hj'. rewrite Hj in Hi'. injection Hj' as Hj'. injection Hi' as Hi'. lia.
+  - intros n Hn. do 201 (destruct n as [|n]; [vm_compute; reflexivity|]). lia.
+Qed.
